@@ -9,4 +9,9 @@ cargo build --release -p kmon
 cargo build --release -p kestrel-wt
 cargo build --profile checked -p kestrel-wt
 cargo build --release -p kestrel-ffi-wt
+cargo build --profile checked -p kestrel-ffi-wt
+RUSTFLAGS="-Zsanitizer=address -Cforce-frame-pointers=yes" CARGO_TARGET_DIR="$ROOT/harness/target-asan" \
+  cargo +nightly build --release -p kestrel-ffi-wt --target x86_64-unknown-linux-gnu || echo "warning: ASan lane unavailable"
+# Miri: build the sysroot and the harness once so later runs start quickly
+(cd "$ROOT/harness/miri" && cargo +nightly miri setup && cargo +nightly miri run --quiet -- c20 1) || echo "warning: Miri lane unavailable"
 echo "setup ok"
